@@ -25,7 +25,8 @@ SHARD_TIMEOUT = {"quick": 120, "thorough": 2400}
 
 SHAPES = ["close_local", "close_remote", "end_of_exec", "drop_local", "drop_remote", "error", "callback", "callback_drop",
           "remote_status", "nested_transfer", "exec_error", "reply_channel_both_dropped", "callback_then_local_close",
-          "exec_sets_callback_on_own_channel", "both_callbacks_peer_drops_first", "callback_channel_sent_back", "endmarker_callback_raises", "error_close_to_callback_only_listener"]
+          "exec_sets_callback_on_own_channel", "both_callbacks_peer_drops_first", "callback_channel_sent_back", "endmarker_callback_raises", "error_close_to_callback_only_listener",
+          "item_callback_raises_on_callback_only_listener"]
 
 
 def shards(tier, seed):
@@ -483,6 +484,47 @@ def one_cycle(res, lab, rng, shape, n):
             sys.stderr = real_stderr
         if got != [n, "end"]:
             res.violation("endmarker-withheld-after-error-close-to-callback-only-listener", f"cycle {n}: callback saw {got!r}")
+    elif shape == "item_callback_raises_on_callback_only_listener":
+        # the listener keeps only its callback, and the callback fails for an item: that ends the conversation on the
+        # listener's side at once (endmarker, entry forgotten) although the sender still holds its channel object
+        import io
+        import sys
+
+        from vlib import pairs
+
+        got = []
+
+        def picky(item):
+            got.append(item)
+            if item == "bad":
+                raise ValueError("listener cannot cope")
+
+        real_stderr, sys.stderr = sys.stderr, io.StringIO()
+        try:
+            lc, rc = lab.pair_newchannel_local() if n % 2 else tuple(reversed(lab.pair_newchannel_remote()))
+            side = lc.gateway._channelfactory
+            cid = lc.id
+            lc.setcallback(picky, endmarker="end")
+            del lc
+            gc.collect()
+            rc.send(n)
+            pairs.wait_until(lambda: n in got, 15.0)
+            rc.send("bad")
+            pairs.wait_until(lambda: "end" in got, 15.0)
+            forgotten = pairs.wait_until(lambda: cid not in side._callbacks, 2.0)
+            try:
+                rc.send("more")  # (the sender's object is still there; what it sends now belongs to no conversation)
+            except OSError:
+                pass
+            time.sleep(0.02)
+            snapshot = list(got)
+            rc.close()
+        finally:
+            sys.stderr = real_stderr
+        if snapshot != [n, "bad", "end"]:
+            res.violation("endmarker-withheld-after-failing-callback-of-callback-only-listener", f"cycle {n}: callback saw {snapshot!r} while the sender still held its end")
+        elif not forgotten:
+            res.violation("channel-table-grew:callbacks", f"cycle {n}: callback entry of the failed listener still registered while the sender holds its end")
     elif shape == "exec_sets_callback_on_own_channel":
         ch = gw.remote_exec("seen = []\nchannel.setcallback(seen.append, endmarker=None)\nchannel.send('ready')")
         assert ch.receive(10) == "ready"
